@@ -98,7 +98,7 @@ def nums(rep):
 
 # ============================================================================================ ls stream
 
-LS_SOLVERS = ["PINV", "LSTSQ", "LSTSQ:gelsd", "LSTSQ:gelss", "PINV:herm", "PINV:rtol", "LSTSQ:rcond"]
+LS_SOLVERS = ["PINV", "LSTSQ", "LSTSQ:gelsd", "LSTSQ:gelss", "PINV:herm", "PINV:rtol", "PINV:atol", "LSTSQ:rcond"]
 
 
 def make_solver(name):
@@ -109,6 +109,8 @@ def make_solver(name):
         return s.PINV(hermitian=True)
     if name == "PINV:rtol":
         return s.PINV(atol=1e-300, rtol=1e-2)
+    if name == "PINV:atol":
+        return s.PINV(atol=0.5, rtol=0.0)
     if name == "LSTSQ":
         return s.LSTSQ()
     if name == "LSTSQ:rcond":
@@ -193,7 +195,7 @@ def check_ls(ctx: Ctx, case, lines_out=None) -> bool:
     A, b, items = ls_build(case)
     A0, b0 = A.clone(), b.clone()
     sol = make_solver(name)
-    default_cfg = name in ("PINV", "LSTSQ", "LSTSQ:gelsd", "LSTSQ:gelss", "PINV:herm")
+    default_cfg = name in ("PINV", "LSTSQ", "LSTSQ:gelsd", "LSTSQ:gelss", "PINV:herm")  # others: wrapper stream only
     try:
         x = sol(A, b)
     except Exception as e:
@@ -240,6 +242,29 @@ def check_ls(ctx: Ctx, case, lines_out=None) -> bool:
                     ok = False
     case["_recs"] = recs
     return ok
+
+
+def check_ls_malformed(ctx: Ctx, case) -> bool:
+    """a non-finite entry in A: the solver must raise or return a finite tensor, never NaN/inf silently
+    (`LSTSQ.forward` carries an explicit assertion for this)."""
+    A, b, _ = ls_build(case)
+    g = gen(case["items"][0]["seed"] + 1)
+    flat = A.reshape(-1)
+    pos = int(torch.randint(0, flat.numel(), (), generator=g))
+    flat[pos] = float(case["malformed"])
+    sol = make_solver(case["solver"])
+    ctx.count(f"ls.malformed.{case['solver'].split(':')[0]}")
+    try:
+        x = sol(A, b)
+    except BaseException:
+        ctx.count("ls.malformed.raises")
+        return True
+    if not bool(torch.isfinite(x).all()):
+        ctx.fail(dict(case), f"nonfinite: {case['solver']} returned a non-finite solution silently for a matrix with a "
+                             f"{case['malformed']} entry ({case['m']}x{case['n']}, {case['dtype']})")
+        return False
+    ctx.count("ls.malformed.finite")
+    return True
 
 
 def judge_ls(ctx: Ctx, case, rec, what, rep):
@@ -936,7 +961,8 @@ def gen_ls_cases(ctx: Ctx, count):
         dtype = rng.choice(["float64", "float64", "float64", "float32"])
         batch = pick_batch(rng)
         nb = math.prod(batch) if batch else 1
-        solver = rng.choice(["PINV", "PINV", "LSTSQ", "LSTSQ", "LSTSQ:gelsd", "LSTSQ:gelss", "PINV:herm", "PINV:rtol", "LSTSQ:rcond"])
+        solver = rng.choice(["PINV", "PINV", "PINV", "LSTSQ", "LSTSQ", "LSTSQ", "LSTSQ:gelsd", "LSTSQ:gelss", "PINV:herm", "PINV:rtol",
+                             "PINV:atol", "LSTSQ:rcond"])
         big = rng.random() < (0.15 if ctx.quick else 0.3)
         m = pick_dim(rng, 40 if big else 14)
         n = pick_dim(rng, 40 if big else 14)
@@ -963,12 +989,21 @@ def gen_ls_cases(ctx: Ctx, count):
             it["seed"] = rng.randrange(1 << 30)
             items.append(it)
         cases.append({"kind": "ls", "solver": solver, "dtype": dtype, "batch": batch, "m": m, "n": n, "items": items})
+        if rng.random() < 0.06 and solver in ("PINV", "LSTSQ", "LSTSQ:gelsd", "LSTSQ:gelss"):
+            cases[-1]["malformed"] = rng.choice(["inf", "inf", "-inf"])
+            for it in items:
+                it.update({"kind": "float", "cexp": 0, "ascale": 0, "b": "generic", "bscale": 0})
+                it.pop("sym", None)
     return cases
 
 
 def run_ls(ctx: Ctx, cases):
     lines = []
     for case in cases:
+        if case.get("malformed"):
+            check_ls_malformed(ctx, case)
+            ctx.note_case(("ls.malformed", case["solver"], case["dtype"], case["m"], case["n"], case["malformed"]), True)
+            continue
         check_ls(ctx, case, lines)
         m, n = case["m"], case["n"]
         kinds = tuple(sorted({(it["kind"], it.get("r", -1) if it["kind"] == "int" else it["cexp"], it["b"]) for it in case["items"]}))
